@@ -379,6 +379,9 @@ class Scenario:
                     raise httpx.HTTPStatusError("status", request=req, response=httpx.Response(self.status_code, request=req))
 
             def iter_bytes(self, chunk_size=None):
+                if self.status_code >= 400:
+                    yield b"<html><body><h1>429 Too Many Requests</h1></body></html>"  # not the image
+                    return
                 for i, c in enumerate(chunks):
                     if mode == "read-error" and i == len(chunks) // 2:
                         raise httpx.ReadError("connection reset (injected)")
@@ -850,9 +853,10 @@ def explore_scenario(p, root, stats, only=None):
             stats["points"] += 1
             return {"fault": ["none", -1], "violation": bad, "ref": ref}
         return None
-    if bool(ref["info"].get("raised")) != expected_raise:
-        raise HarnessError(f"reference run of scenario {p['index']} ({p['kind']}): raised={ref['info'].get('raised')!r} "
-                           f"expected_raise={expected_raise}\n{ref['info'].get('tb', '')}")
+    if expected_raise and not ref["info"].get("raised"):
+        # a transfer scripted to fail did not make the producer fail: what it published instead is judged below
+        Stats.merge(stats["probes"], {f"producer-survived-a-scripted-failure:{p['kind']}": 1})
+        sc.may_fail.update(sc.published)
     stats["scenarios"] += 1
     digest_dump(p["index"], stable_hash([ref["trace"], ref["marks"]]))
     Stats.merge(stats["scenario_kinds"], {p["kind"]: 1})
